@@ -485,7 +485,53 @@ def r19_10(ctx):
            'exit status' % readers)
 
 
+
+def r19_12(ctx):
+    ctx.rule('R19.12', 'the table of live children is this module\'s own and starts empty in every process: it is bound '
+                       'to a fresh set() at import and in _bootstrap, never to a set another module (the stdlib) keeps -- '
+                       'a forked child that inherits its parent\'s children tries to join them on its way out and '
+                       'reports 1', floor=2)
+    m = ctx.model
+    mi = m.modules['process']
+    vals = [ast.unparse(v) for v in mi.all_assigns.get('_children', [])]
+    bs = m.func('process:BaseProcess._bootstrap')
+    ctx.ob('R19.12', 'process._children:own-fresh-set', vals == ['set()'], bs, None, '_children = %s at module level' % vals)
+    bs = m.func('process:BaseProcess._bootstrap')
+    defs = [ast.unparse(v) for (dn, t, v) in q.assigns(bs, '_children') if v is not None]
+    ctx.ob('R19.12', '_bootstrap:child-starts-with-no-children', defs == ['set()'], bs, None, '_children = %s in _bootstrap' % defs)
+
+
+def exit_decided_by_waitpid(ctx, rule):
+    ctx.rule(rule, 'whether a child has exited is decided by waitpid alone: the sentinel pipe stays open as long as any '
+                   'descendant of the child holds it, so "pipe not readable" does not mean "still running" -- neither '
+                   'poll() nor the pool\'s reaper may answer "running" from the pipe', floor=2)
+    m = ctx.model
+    fi = m.func('popen_fork:Popen.poll')
+    cfg = fi.cfg
+    wp = [n for (n, c) in q.calls(fi, 'os.waitpid')]
+    q.need(wp, 'popen_fork.Popen.poll does not call waitpid')
+    rets = [r for r in cfg.where(lambda r: r.kind == 'stmt' and isinstance(r.ast, ast.Return))
+            if q.has_guard(fi, r, 'self.returncode is None', True)]
+    early = [r for r in rets if not cfg.dominated_by(r, wp)[0]]
+    ctx.ob(rule, 'poll:no-answer-before-waitpid', not early, fi, early[0] if early else wp[0],
+           'while no code is cached every answer comes after os.waitpid' if not early else
+           'poll() answers without asking waitpid: a worker that died while something it forked is alive is never seen '
+           'as exited, never reaped, never replaced')
+    je = m.func('pool:Pool._join_exited_workers')
+    loops = [n for n in je.cfg.where(lambda n: n.kind == 'for')
+             if any(isinstance(x, ast.Attribute) and x.attr == 'exitcode' for x in ast.walk(n.stmt))]
+    q.need(loops, '_join_exited_workers: loop over the workers not found')
+    reads = [n for n in je.cfg.where(lambda n: n.kind in ('stmt', 'test') and n.ast is not None and any(
+        isinstance(x, ast.Attribute) and x.attr == 'exitcode' and isinstance(x.ctx, ast.Load) for x in ast.walk(n.ast)))
+        if q.inside(je, n, loops[0].stmt.body)]
+    ok, w = q.every_iteration_passes(je, loops[0], reads) if reads else (False, None)
+    ctx.ob(rule, 'reaper:asks-every-worker-for-its-exit-code', ok, je, loops[0],
+           'every iteration of the reaping loop reads <worker>.exitcode (= poll = waitpid)', path=w)
+
+
 def run(ctx):
+    exit_decided_by_waitpid(ctx, 'R19.11')
+    r19_12(ctx)
     r19_9(ctx)
     r19_10(ctx)
     r19_8(ctx)
@@ -501,6 +547,8 @@ def run(ctx):
 _PF = 'billiard/popen_fork.py'
 _PR = 'billiard/process.py'
 MUTANTS = [
+    ('poll-trusts-the-sentinel-pipe', _PF, "        if self.returncode is None:\n            while True:\n                try:\n                    pid, sts = os.waitpid(self.pid, flag)", "        if self.returncode is None:\n            if flag == os.WNOHANG and self.sentinel is not None and not __import__('select').select([self.sentinel], [], [], 0)[0]:\n                return None\n            while True:\n                try:\n                    pid, sts = os.waitpid(self.pid, flag)", 'R19.11'),
+    ('children-set-shared-with-the-stdlib', _PR, "_children = set()\ndel _MainProcess", "_children = _mproc._children\ndel _MainProcess", 'R19.12'),
     ('poll-and-wait-serialised-by-a-lock', _PF, "    def wait(self, timeout=None):\n        if self.returncode is None:\n", "    def wait(self, timeout=None):\n      with self._wait_lock:\n        if self.returncode is None:\n", 'R19.9'),
     ('forkserver-pid-read-lazily', 'billiard/popen_forkserver.py', "        self.pid = forkserver.read_unsigned(self.sentinel)\n\n    def poll(", "\n    def _read_pid(self):\n        self.pid = forkserver.read_unsigned(self.sentinel)\n        return self.pid\n\n    def poll(", 'R19.10'),
     ('forkserver-poll-tests-the-code-by-truth', 'billiard/popen_forkserver.py', "        if self.returncode is None:\n            from .connection import wait", "        if not self.returncode:\n            from .connection import wait", 'R19.8'),
